@@ -198,3 +198,15 @@ MANIFEST_TEXT['C04'] = (
  "Machine-checked for every program: every run (nested reaction, manual run, re-run, reactor of another event, any later run) starts with the readers exposing exactly what its own command parked and nothing else — the proved-unreachable assertion of C03 — so a run whose command carried no event reads nothing; cleanup switches off every flag its setup switched on (cleanup_ok), the flags are off at every command boundary on both paths of run_initialized_system (exec_ticket: only an exclusive system's own queued cleanup may still be pending at the head of its command list) and between trees; take_sysevents yields at most one payload and nothing afterwards. Tied to /repo by differential runs comparing all reader samples of every run, with plain, exclusive and Err-returning systems, plus the m_readers monitor.",
  "Trusted: Coq kernel; model faithfulness (differential); Bevy semantics as modelled. Readers are sampled at body start only; Err-return equivalence rests on the correspondence.",
  "Coq proof (ticket/flag invariant over the interpreter, proved-unreachable assertion, reader characterisation) + model/implementation correspondence + monitor", "DESIGN.md §5 C04")
+
+PROPS['C13'] = P(
+    ['state_is_persistent_and_private', 'state_invariant_everywhere', 'body_logs_the_stored_state', 'assertion_guards_every_body',
+     'history_matches_log', 'callback_never_missing'],
+    ['recursion', 'lifetime', 'mixed', 'xw'], 'state', determined=True,
+    assumes=['the state is the pair (Local<u32> run counter, counter captured by the closure) of the harness bodies; Bevy\'s own system state (query caches, change ticks) is not modelled',
+             'partial: "dropped exactly once when the system dies" is checked by the correspondence (dropsys lines) and the m_state monitor, not by a theorem',
+             'an id is installed once (ghost set `spawned`): the harness ignores a second spawn under a bound id, as the model does'])
+MANIFEST_TEXT['C13'] = (
+ "Machine-checked for every program and every system t (closed invariant of every interpreter step, hence of every recursion pattern and sequence of trees): the (Local, captured) pairs logged by the runs of t are (0,0), (1,1), ..., (n-1,n-1) in order and, while the state exists, both stored counters equal n — the state is created once with (0,0), advanced only by t's own body, never reset, re-created or touched by another system's run; the body logs exactly the stored pair (proved-unreachable assertion) and the callback is never missing when a command runs it. Tied to /repo by differential runs comparing the Local and captured counters printed by every run of every system and the drop of each system's state, plus the m_state monitor.",
+ "Trusted: Coq kernel; model faithfulness (differential); Bevy Local/closure-capture semantics as modelled. Partial: exactly-once drop of the state is correspondence + monitor only.",
+ "Coq proof (closed per-system invariant over a ghost run history, proved-unreachable assertion) + model/implementation correspondence + monitor", "DESIGN.md §5 C13")
